@@ -171,6 +171,13 @@ def run(ctx, res):
                 n_pos += positional(res, short_in, H, UNKNOWN_MIN, None, d)
             else:
                 n_pos += positional(res, outs, H, minlen, pt, d)
+        elif kind == "inherent" and name == "Compound":
+            # compound parsing: a compound holds at least one packet, so its minimum is the smallest packet's (clause 1 only)
+            short_in = []
+            for s, k, v in outs:
+                for s1 in Interp_assume(s, flit(lt(H.len, UNKNOWN_MIN))):
+                    short_in.append((s1, k, v))
+            n_pos += positional(res, short_in, H, UNKNOWN_MIN, None, d)
         # conversions and FCI extraction on parsed values
         for path, recv, md, s2, r in conv_errs:
             e = err_payload(r)
